@@ -2,6 +2,7 @@ package main
 
 import (
 	"go/token"
+	"go/types"
 	"strings"
 
 	"golang.org/x/tools/go/ssa"
@@ -254,7 +255,7 @@ func runC32(c *Ctx) {
 	if hs != nil {
 		var msgWrites, nlWrites, finishWrites []ssa.CallInstruction
 		var encodes []ssa.CallInstruction
-		for _, f := range WithClosures(hs) {
+		for _, f := range w.Deep(hs, 2).Funcs { // the handler, its closures and the helpers it calls
 			EachInstr(f, func(in ssa.Instruction) {
 				ci := asCall(in)
 				if ci == nil {
@@ -508,6 +509,17 @@ func fromReceivedBatch(v ssa.Value) bool {
 	}
 	ia, ok := u.X.(*ssa.IndexAddr)
 	if !ok {
+		return false
+	}
+	// a [][]byte parameter (the batch handed to a helper) or the value received in the select
+	if p, ok := ia.X.(*ssa.Parameter); ok {
+		if s, ok := p.Type().Underlying().(*types.Slice); ok {
+			if s2, ok := s.Elem().Underlying().(*types.Slice); ok {
+				if b, ok := s2.Elem().Underlying().(*types.Basic); ok && b.Kind() == types.Byte {
+					return true
+				}
+			}
+		}
 		return false
 	}
 	ex, ok := ia.X.(*ssa.Extract)
